@@ -104,11 +104,15 @@ let s_wire f =
 
 let handle (w : string list) : string =
   match w with
-  | "collect" :: v :: miu :: agf :: rest ->
+  | "collect" :: v :: miu :: agf :: icv :: rest ->
     toks := rest;
     let st = p_state () in
     let var = if v = "orig" then orig else fixed in
-    let c = { send_miu = zi miu; send_agf = (agf <> "0") } in
+    (* the test cipher of the harness: ciphertext = plaintext followed by icv octets EEh *)
+    let sec = if icv = "-" then None else
+      let n = int_of_string icv in
+      Some { icv_size = z_of_int n; encrypt = (fun _ d -> d @ List.init n (fun _ -> z_of_int 238)) } in
+    let c = { send_miu = zi miu; send_agf = (agf <> "0"); sec = sec } in
     show_res (fun (st', f) -> String.concat " | " [s_frame f; s_wire f; zs (frame_info f); s_state st']) (collect_v var c st)
   | ["receive"; d] -> show_res (s_list s_pdu) (receive (bytes_of_hex d))
   | "sendto" :: miu :: dest :: msg :: rest ->
